@@ -61,18 +61,19 @@ class C02(Prop):
     ]
 
     def consts(self, tier):
-        return {"KindsUsed": {"table", "view", "column", "schema", "alias", "variable"}}
+        return {"KindsUsed": {"table", "view", "column", "schema", "alias", "variable"}, "FindsUsed": True}
 
     def model_checks(self, tier):
-        c = {"KindsUsed": {"table", "column", "variable"}, "Devs": set(), "Depth": 4, "MaxFails": 0, "SampleOneIn": 1}
+        c = {"KindsUsed": {"table", "column", "variable"}, "FindsUsed": True, "Devs": set(), "Depth": 4, "MaxFails": 0, "SampleOneIn": 1}
         return [dict(name="mc_ideal", consts=c, invariants=["StepInv"], constraint="Bound", view="ViewSt", timeout=1200),
                 dict(name="mc_create_user", consts=dict(c, Devs={"C02.user_name_not_folded"}, KindsUsed={"variable"}, Depth=2), invariants=["StepInv"],
                      constraint="Bound", view="ViewSt", devs=["C02.user_name_not_folded"])]
 
     def generations(self, tier, seed):
         big = tier == "thorough"
-        base = {"Devs": set(), "MaxFails": 0, "SampleOneIn": 1}
-        out = []
+        base = {"Devs": set(), "MaxFails": 0, "SampleOneIn": 1, "FindsUsed": True}
+        # every creation spelling x every reporting channel, all of them (no sampling)
+        out = [dict(name="channels", mode="edges", consts=dict(base, KindsUsed={"table", "view", "column", "schema", "alias"}, FindsUsed=False, Depth=3))]
         for kind in ("table", "view", "column", "schema", "alias", "variable"):
             out.append(dict(name="pairs_" + kind, mode="edges", sample=None if big else 700, consts=dict(base, KindsUsed={kind}, Depth=4)))
         return out
@@ -129,6 +130,7 @@ class C02(Prop):
         ev = []
         made_cols = []
         self.made_alias = made_cols
+        self.made_table = []
         for op in ops:
             k = op["k"]
             obs = {"res": "ok", "names": []}
@@ -141,6 +143,19 @@ class C02(Prop):
                     obs = self.find(op, conn, rng)
                 elif k == "names":
                     obs = self.names(op, conn, made_cols)
+                elif k == "quotedpair":
+                    names = []
+                    for sp2 in (op["first"], op["second"]):
+                        if op["ch"] == "description":
+                            cur.execute(f"select 1 as {SP[sp2]}")
+                            names.append(cur.description[0].name)
+                        else:
+                            names += list(conn.cursor(DictCursor).execute(f"select 1 as {SP[sp2]}").fetchall()[0].keys())
+                    obs = {"res": "ok", "names": sorted(set(names))}
+                elif k == "kwcase" and op.get("what") == "set_tag":
+                    conn.cursor().execute("create table if not exists tagt (c int)")
+                    rows = conn.cursor().execute(kwcase("alter table tagt modify column c set tag k = «'v'»", op["kw"], rng)).fetchall()
+                    obs = {"res": "ok" if len(rows) == 1 else "err", "names": []}
                 elif k == "kwcase":
                     sql = kwcase(f"create user «{op['name'].lower()}»", op["kw"], rng)
                     conn.cursor().execute(sql)
@@ -163,7 +178,7 @@ class C02(Prop):
         import snowflake.connector.errors as sferr
 
         kind, sp, kw = op["kind"], SP[op["sp"]], op["kw"]
-        sql = {"table": f"create table {keep(sp)} (c int)", "view": f"create view {keep(sp)} as select k from base",
+        sql = {"table": f"create table {keep(sp)} (c int primary key)", "view": f"create view {keep(sp)} as select k from base",
                "column": f"alter table colt add column «{sp}» int", "schema": f"create schema {keep(sp)}",
                "alias": None, "variable": f"set «{sp}» = 7"}[kind]
         if kind == "column":
@@ -183,6 +198,7 @@ class C02(Prop):
             m = re.match(r"(?:Table|View|Schema) (.*) successfully created\.", rows[0][0])
             names = [m.group(1)] if m else ["?" + rows[0][0]]
         if kind == "table":
+            self.made_table.append(op["sp"])
             conn.cursor().execute(f"insert into {sp} values (1)")
         return {"res": "ok", "names": names}
 
@@ -251,9 +267,12 @@ class C02(Prop):
                 rows = cur.execute("select table_name from information_schema.tables where table_schema = 'S1' and table_type = 'BASE TABLE'").fetchall()
             elif ch == "show_tables":
                 rows = [(r[1],) for r in cur.execute("show tables in schema s1").fetchall()]
+            elif ch == "show_pk":
+                # in the scope of the table itself, named as it was created
+                rows = [(r[3],) for r in cur.execute(f"show primary keys in table {SP[self.made_table[-1]]}").fetchall()] if self.made_table else []
             else:
                 rows = [(r[1],) for r in cur.execute("show objects in schema s1").fetchall() if r[2] == "TABLE"]
-            return {"res": "ok", "names": [n for n in user(rows) if n not in ("BASE", "COLT", "PROBE")]}
+            return {"res": "ok", "names": [n for n in user(rows) if n not in ("BASE", "COLT", "PROBE", "TAGT")]}
         if kind == "view":
             if ch == "info_views":
                 rows = cur.execute("select table_name from information_schema.views where table_schema = 'S1'").fetchall()
